@@ -139,13 +139,15 @@ func judgeBest(p *rm.Parsed, mq rm.Request, r rm.Router, o rs.Outcome) string {
 	}
 	an := p.Analyse(mq, r)
 	id := o.Invoked[0].ID
-	for _, e := range an.Exps {
-		if e.Status != 200 {
-			continue
-		}
-		for _, b := range e.Best {
-			if b == id {
-				return ""
+	for _, reading := range r.Readings() {
+		for _, e := range p.Analyse(mq, reading).Exps {
+			if e.Status != 200 {
+				continue
+			}
+			for _, b := range e.Best {
+				if b == id {
+					return ""
+				}
 			}
 		}
 	}
